@@ -470,6 +470,110 @@ def check_reader(case, ctx):
             ctx.fail("C04/readers/text", case, "token %r read as %r" % (case["token"], got))
 
 
+# ---- diagrams: a slice whose cases are missing somewhere changes no pooled figure ---------------------------------
+# figure kinds (names of the C16 table) whose drawn quantities pool the cases over the inserted dimension
+DIAGRAM_POOL = ["reliability", "invreliability", "discrimination", "roc", "droc0", "performance", "marginal", "igncontrib", "economicvalue", "bsdecomp",
+                "murphy", "freq", "cond", "hist", "pithist", "qq", "scatter", "against", "error", "taylor", "spreadskill", "fss", "sort", "obsfcst", "change"]
+_AXIS_DIM = {"location": "location", "lat": "location", "lon": "location", "elev": "location", "leadtime": "leadtime", "leadtimeday": "leadtime"}
+
+
+def diagram_insert_strategy(tier):
+    from . import c16
+
+    @st.composite
+    def s(draw):
+        name = draw(st.sampled_from([n for n in DIAGRAM_POOL if n in c16.DIAGRAMS]))
+        info = c16.DIAGRAMS[name]
+        spec = draw(gen.dataset(max_inputs=min(2, info["max_inputs"]), min_inputs=info["min_inputs"], clim=False,
+                                flavor="full" if info["flavor"] == "prob" else "det", core_max=3, extra_max=1, allow_drop=False,
+                                allow_obsless=False, max_members=2, allow_all_missing=False, ordered_dims=True))
+        opt = info["cls"].options(draw, spec)
+        return {"diagram": name, "spec": spec, "opt": opt, "dim": draw(st.sampled_from(["location", "time", "leadtime"])),
+                "victims": draw(st.lists(st.integers(0, 3), min_size=4, max_size=4)), "fills": draw(st.lists(st.integers(-40, 40), min_size=6, max_size=6)),
+                "bin": draw(st.sampled_from([None, None, "below=", "below", "above=", "above"]))}
+    return s()
+
+
+_dcount = [0]
+
+
+def _series(dump):
+    out = []
+    for a in dump["axes"]:
+        if a["is_colorbar"]:
+            continue
+        out.append({"lines": [(ln["label"], ln["x"], ln["y"]) for ln in a["lines"]], "bars": [(b["x"], b["h"]) for b in a["bars"]],
+                    "points": [sc["offsets"] for sc in a["scatters"]]})
+    return out
+
+
+def _same_numbers(a, b, tol=1e-7):
+    if isinstance(a, (list, tuple)) and isinstance(b, (list, tuple)):
+        return len(a) == len(b) and all(_same_numbers(x, y, tol) for x, y in zip(a, b))
+    if isinstance(a, str) or isinstance(b, str) or a is None or b is None:
+        return a == b
+    return cmpx.close(a, b, tol)
+
+
+def check_diagram_insert(case, ctx):
+    """X+ = X plus one more location / time / lead time whose cases are missing in at least one file: every figure that pools the cases
+    over that dimension draws exactly what it draws for X (NaN, fill values and absent rows are not events, not zeros, not points)."""
+    from .. import drive, figdump, mat
+    from . import c16
+    if "diagram" not in case:
+        return check_insert(case, ctx)
+    name, spec, dim = case["diagram"], case["spec"], case["dim"]
+    if model.DS(spec).empty:
+        return
+    info = c16.DIAGRAMS[name]
+    dargs = info["cls"].args(dict(case, opt=dict(case["opt"])), spec)
+    if dargs is None:
+        return
+    dargs = list(dargs)
+    if "-x" in dargs:
+        ax = dargs[dargs.index("-x") + 1]
+        if _AXIS_DIM.get(ax, "time" if ax not in ("no", "threshold", "obs", "fcst") else None) == dim:
+            ctx.label("diagram-sliced-along-the-inserted-dimension")
+            return
+    elif name in ("obsfcst", "change", "fss") and dim == "leadtime":
+        return          # their default axis is the lead time
+    if case.get("bin") and "-b" in dargs and dargs[dargs.index("-b") + 1] in ("above", "below", "above=", "below="):
+        dargs[dargs.index("-b") + 1] = case["bin"]
+    elif case.get("bin") and name == "fss" and "-b" not in dargs:
+        dargs += ["-b", case["bin"]]
+    spec2 = extend(spec, dim, case["victims"], case["fills"], 99)
+    _dcount[0] += 1
+    dumps = []
+    for tag, sp in (("x", spec), ("xplus", spec2)):
+        d = os.path.join(ctx.scratch, "di%d_%s" % (_dcount[0], tag))
+        os.makedirs(d)
+        paths, _ = mat.write_files(sp, d, "text")
+        r = drive.run(paths + dargs)
+        if r.exc is not None:
+            ctx.fail("C04/diagram-insert/%s/crash/%s" % (name, r.exc_key), case, "argv %s on %s: %s" % (" ".join(dargs), tag, r.tb[-500:]))
+            return
+        if r.exit not in (None, 0):
+            ctx.label("diagram-insert/error-exit")
+            return
+        dumps.append(_series(figdump.dump_current()))
+    if _dcount[0] % 20 == 0:
+        drive.close_figures()
+    ctx.evals += 1
+    ctx.label("diagram-insert=" + name)
+    ctx.nt(("diagram-insert", name, dargs, dim, spec["times"], [d_["fcst"] for d_ in spec["inputs"]], case["victims"]))
+    a, b = dumps
+    if len(a) != len(b):
+        ctx.fail("C04/diagram-insert/%s" % name, case, "argv %s: %d axes for X, %d for X+" % (" ".join(dargs), len(a), len(b)))
+        return
+    for k, (pa, pb) in enumerate(zip(a, b)):
+        for part in ("lines", "bars", "points"):
+            if not _same_numbers(pa[part], pb[part]):
+                diff = [(x, y) for x, y in zip(pa[part], pb[part]) if not _same_numbers(x, y)][:2]
+                ctx.fail("C04/diagram-insert/%s" % name, case, "argv %s: after adding a %s whose cases are missing in some file the %s of axes %d change: %r"
+                         % (" ".join(dargs), dim, part, k, diff or (len(pa[part]), len(pb[part]))))
+                return
+
+
 def campaigns(tier):
     return [
         Enum("readers", reader_items, check_reader, "listed encodings and neighbouring ordinary values"),
@@ -477,4 +581,5 @@ def campaigns(tier):
         Hyp("encode", encode_strategy, check_encode, quick=160, thorough=4000, budget_quick=60, budget_thorough=1200),
         Hyp("ensemble-members", members_strategy, check_members, quick=480, thorough=8000, budget_quick=30, budget_thorough=600),
         Hyp("quotient", quotient_strategy, check_quotient, quick=240, thorough=3000, budget_quick=60, budget_thorough=1200),
+        Hyp("diagram-insert", diagram_insert_strategy, check_diagram_insert, quick=400, thorough=8000, budget_quick=40, budget_thorough=1500),
     ]
